@@ -271,11 +271,9 @@ Definition validate_kFlowDecomp (i : input) : outcome :=
   end.
 
 (* MinFlowDecomp: constructor (minflowdecomp.py:138-207) validates little; solve() -> get_lowerbound_k ->
-   stDAG(G), log2(#distinct weights) ; the k-loop constructs kFlowDecomp on the internal graph in edge mode *)
+   stDAG(G), width ; the k-loop `range(lb, |E|+1)` constructs kFlowDecomp on the internal graph in edge mode *)
 Definition mfd_solve (i : input) : outcome :=
   v_stdag i [] [] ;;
-  guard (forallb (fun e => missing_w (e_w e)) (elems i)) VE ;;
-      (* math.log2(0) is a ValueError: no edge of the internal graph carries the attribute *)
   guard (negb (search_enters i)) AcceptsButUnsolved ;;
   kfd_core i (ign_internal_empty i) false.
 Definition validate_MinFlowDecomp (i : input) : outcome :=
@@ -305,20 +303,6 @@ Definition validate_kErrDAG (i : input) : outcome :=
 Definition validate_kMinPathError := validate_kErrDAG.
 Definition validate_kLeastAbsErrors := validate_kErrDAG.
 
-(* kPathCover (kpathcover.py:98-171) *)
-Definition validate_kPathCover (i : input) : outcome :=
-  match origin i with
-  | ONode => guard (Nat.eqb (n_nodes i) 0) VE ;; RaiseOther EType      (* id(...) + "_flow_attr"  (DESIGN #4) *)
-  | OEdge =>
-    front_edge i ;;
-    v_stdag i (starts i) (ends i) ;;
-    v_pathmodel i ;;
-    guard (negb (k_is_int i)) (RaiseOther EType) ;;
-    guard (k_le0 i && has_live i) AcceptsButUnsolved ;;       (* zero paths cannot cover a non-ignored edge *)
-    Accept
-  | OOther => VE
-  end.
-
 (* front of MinPathCover / MinPathCoverCycles: constraints, ignore list, then the additional starts/ends *)
 Definition front_cover (i : input) : step :=
   match origin i with
@@ -330,8 +314,18 @@ Definition front_cover (i : input) : step :=
   | OOther => Some VE
   end.
 
-(* MinPathCover (minpathcover.py:96-199): stDAG in the constructor; solve() builds kPathCover(cover_type="edge")
-   on the internal graph for k = lower bound, ... *)
+(* kPathCover (kpathcover.py:98-171); node mode: dummy node attribute, NodeExpandedDiGraph, constraints, ignore
+   list, then the additional starts/ends — the same order as MinPathCover's constructor *)
+Definition validate_kPathCover (i : input) : outcome :=
+  front_cover i ;;
+  v_stdag i (st_of i) (en_of i) ;;
+  v_pathmodel i ;;
+  guard (negb (k_is_int i)) (RaiseOther EType) ;;           (* range(self.k) *)
+  guard (k_le0 i && has_live i) AcceptsButUnsolved ;;       (* zero paths cannot cover a non-ignored element *)
+  Accept.
+
+(* MinPathCover (minpathcover.py:96-199): stDAG in the constructor; solve() builds kPathCover(G_input, cover_type, the
+   caller's constraints / ignore list / starts / ends) for k = lower bound, ... |E| *)
 Definition validate_MinPathCover (i : input) : outcome :=
   front_cover i ;;
   v_stdag i (st_of i) (en_of i) ;;
@@ -404,7 +398,7 @@ Definition validate_MinPathCoverCycles (i : input) : outcome :=
   guard (negb (search_enters i)) AcceptsButUnsolved ;;
   v_stdigraph i (st_of i) (en_of i) ;;
   v_walkmodel_k i false ;;
-  guard (fooled i [] [] || fooled i (st_of i) (en_of i)) (RaiseOther ECrash) ;;
+  v_fooled i ;;                                            (* the lower bound on a fooled graph does not crash *)
   Accept.
 
 (* MinFlowDecompCycles (minflowdecompcycles.py:107-265) *)
